@@ -89,3 +89,127 @@ pub fn c11_representation_load() {
     }
     kani::cover!(true, "end");
 }
+
+// ---------------------------------------------------------------------------
+// C11.block / C11.split: header blocks over a restricted alphabet
+// ---------------------------------------------------------------------------
+// Symbols (concrete per query, see DESIGN rule 6):
+//   1 = indexed static field 2 (:method GET)        0x82
+//   2 = indexed field 0 (always a decoding error)   0x80
+//   3 = table-size update, one octet, value 0..=30  0x20|v      (v symbolic)
+//   4 = table-size update, two octets, value 31+v   0x3f v      (v symbolic, < 128)
+//   5 = indexed dynamic field 62 (empty table: err) 0xbe
+//   6 = indexed static field 16 (accept-encoding)   0x90
+pub(crate) fn no_literal(_d: &mut Decoder, _b: &mut Cursor<&mut BytesMut>, _i: bool) -> Result<Header, DecoderError> {
+    panic!("UNREACHABLE-STUB Decoder::decode_literal")
+}
+
+#[derive(Clone, Copy, PartialEq, Eq)]
+enum RefOut {
+    Ok(u32, usize), // digest of the field list, final table max size
+    Err(u8),        // 1 = InvalidTableIndex, 2 = InvalidMaxDynamicSize
+}
+
+fn field_code(h: &Header) -> u32 {
+    match h {
+        Header::Method(m) if *m == http::Method::GET => 1,
+        Header::Field { name, value } if *name == http::header::ACCEPT_ENCODING && value == "gzip, deflate" => 6,
+        _ => 9,
+    }
+}
+
+fn run_decoder(dec: &mut Decoder, buf: &mut BytesMut, digest: &mut u32) -> Result<(), DecoderError> {
+    dec.decode(&mut Cursor::new(buf), |h| {
+        *digest = *digest * 16 + field_code(&h);
+        std::mem::forget(h);
+        ControlFlow::Continue(())
+    })
+}
+
+fn block<const T0: u8, const T1: u8, const T2: u8>(check_split: bool) {
+    let tags = [T0, T1, T2];
+    let limit: usize = 4096;
+    // serialise + reference decode (RFC 7541 §3.2, §4.2, §6.1, §6.3) in one pass
+    let mut bytes = [0u8; 6];
+    let mut n = 0usize;
+    let mut want = RefOut::Ok(0, limit);
+    let mut seen_field = false;
+    let mut i = 0;
+    while i < 3 {
+        let t = tags[i];
+        let mut val: usize = 0;
+        if t == 1 { bytes[n] = 0x82; n += 1; }
+        else if t == 2 { bytes[n] = 0x80; n += 1; }
+        else if t == 5 { bytes[n] = 0xbe; n += 1; }
+        else if t == 6 { bytes[n] = 0x90; n += 1; }
+        else if t == 3 {
+            let v: u8 = kani::any();
+            kani::assume(v <= 30);
+            bytes[n] = 0x20 | v; n += 1; val = v as usize;
+        } else if t == 4 {
+            let v: u8 = kani::any();
+            kani::assume(v < 128);
+            bytes[n] = 0x3f; bytes[n + 1] = v; n += 2; val = 31 + v as usize;
+        }
+        if let RefOut::Ok(d, sz) = want {
+            if t == 1 || t == 6 {
+                want = RefOut::Ok(d * 16 + t as u32, sz);
+                seen_field = true;
+            } else if t == 2 || t == 5 {
+                want = RefOut::Err(1);
+            } else if t == 3 || t == 4 {
+                // a size update is only legal at the beginning of a header block and
+                // must not exceed the limit set by the protocol
+                want = if seen_field || val > limit { RefOut::Err(2) } else { RefOut::Ok(d, val) };
+            }
+        }
+        i += 1;
+    }
+    // --- whole
+    let mut dec1 = Decoder::new(limit);
+    let mut b1 = BytesMut::with_capacity(16);
+    b1.extend_from_slice(&bytes[..n]);
+    let mut d1 = 0u32;
+    let r1 = run_decoder(&mut dec1, &mut b1, &mut d1);
+    let got1 = match r1 {
+        Ok(()) => RefOut::Ok(d1, dec1.table.max_size),
+        Err(DecoderError::InvalidTableIndex) => RefOut::Err(1),
+        Err(DecoderError::InvalidMaxDynamicSize) => RefOut::Err(2),
+        Err(_) => RefOut::Err(99),
+    };
+    assert!(got1 == want, "C11.block: whole-block decoding differs from RFC 7541");
+    assert!(dec1.table.size <= dec1.table.max_size, "dynamic table above its limit");
+    if check_split {
+        // --- split at an arbitrary byte offset, resuming as HeaderBlock::load does:
+        // the undecoded tail stays in the buffer and the next fragment is appended
+        let k: usize = kani::any();
+        kani::assume(k <= n);
+        let mut dec2 = Decoder::new(limit);
+        let mut b2 = BytesMut::with_capacity(16);
+        b2.extend_from_slice(&bytes[..k]);
+        let mut d2 = 0u32;
+        let ra = run_decoder(&mut dec2, &mut b2, &mut d2);
+        let rb = match ra {
+            Ok(()) | Err(DecoderError::NeedMore(_)) => {
+                b2.extend_from_slice(&bytes[k..n]);
+                run_decoder(&mut dec2, &mut b2, &mut d2)
+            }
+            Err(e) => Err(e),
+        };
+        let got2 = match rb {
+            Ok(()) => RefOut::Ok(d2, dec2.table.max_size),
+            Err(DecoderError::InvalidTableIndex) => RefOut::Err(1),
+            Err(DecoderError::InvalidMaxDynamicSize) => RefOut::Err(2),
+            Err(_) => RefOut::Err(99),
+        };
+        assert!(got2 == want, "C11.split: feeding the block in two pieces differs from feeding it whole");
+        kani::cover!(k > 0 && k < n, "split_inside");
+        std::mem::forget(dec2);
+        std::mem::forget(b2);
+    }
+    kani::cover!(true, "end");
+    std::mem::forget(dec1);
+    std::mem::forget(b1);
+}
+// generated wrappers: see tools/gen_block_obligations.py
+include!(concat!(env!("H2_VERIF_DIR"), "/harness/hpack/decoder_block_wrappers.rs"));
